@@ -119,6 +119,29 @@ def effect_findings(facts):
     return out
 
 
+def optval_findings(facts):
+    """G-OPTVAL: a boolean option of the attribute (`Option<SpanOpt<bool>>`, `Option<SpanOpt<FutureSend>>`) is read
+    through its VALUE (with the default when absent). A presence predicate on it — `is_some()` / `is_none()` — makes
+    `opt = false` differ from leaving `opt` out."""
+    out = []
+    n = 0
+    for b in facts["bodies"]:
+        if b.get("stolen"):
+            continue
+        owner = fn_of(b["path"])
+        for c in b["calls"]:
+            names = callee_names(c)
+            a0 = (c["arg_tys"] or [""])[0]
+            if not re.search(r"core::option::Option<(crate::)?opt::SpanOpt<(bool|(crate::)?opt::FutureSend)>>", a0):
+                continue
+            n += 1
+            if any(re.search(r"core::option::Option::<[^>]*>::(is_some|is_none|is_some_and|is_none_or)$", x) for x in names):
+                out.append(("G-OPTVAL", "%s %s" % (owner, strip_generics(names[0]).split("::")[-1]),
+                            "`%s` tests the PRESENCE of a boolean option (`%s` on `%s`): `opt = false` would no longer be the same as "
+                            "omitting `opt`" % (owner, strip_generics(names[0]).split("::")[-1], a0), where(b, c)))
+    return out, n
+
+
 def strip_generics(n):
     # drop generic argument lists `::<..>` and `<..>` after path segments
     depth = 0
